@@ -35,6 +35,9 @@ CHECKS = {
  "C11": ("model_checking", "E1 smallscope", "exhaustive enumeration of (a) the generated well-formed text universe, (b) every single JSON-node mutation of seed schemas with a fixed replacement alphabet, (c) all short strings over a JSON-steering alphabet; each parsed by the real parser under catch_unwind, accepted schemas exercised through every listed operation, acceptance compared with a three-valued reference judgement",
          "No text of the enumerated universe makes the parser or any operation on an accepted schema panic; texts the reference judgement finds definitely well formed are accepted and definitely ill formed ones are rejected (grey-zone texts yield no verdict).",
          "5 C11", "the reference judgement wf is written from the specification; hangs are bounded only by the run's overall timeout"),
+ "C20": ("model_checking", "E1 + hook H3", "exhaustive enumeration of input subsets x input permutations x drain orders of the parser's pending map (the hash order turned into an enumerated choice by a hook), each executed on the real parse_list and compared with a reference resolvability predicate",
+         "For every subset (up to the size bound) of a family of mutually referencing schemas, every permutation of the input list and every order in which the parser can drain its pending map, parsing succeeds exactly when every reference resolves inside the set and no full name is defined twice, returns the schemas in input order, and yields identical JSON for each input across all orderings; long reference chains are explored with deviation-bounded drain orders.",
+         "5 C20", "the pending map's iteration order is the only order-dependent nondeterminism; hook H3 owns it"),
 }
 def main():
     checks = []
@@ -59,7 +62,7 @@ def main():
             "guard": "cargo feature `verif-hooks` of apache-avro",
             "enable": "the harness depends on apache-avro by path (/repo/avro) with the feature list in harness/Cargo.toml",
             "baseline_off_cmd": "cd /repo && cargo nextest run --workspace --no-fail-fast --offline",
-            "source_commits": ["c19c0b7"],
+            "source_commits": ["c19c0b7", "135d249", "645ae97"],
             "add_only": True,
         },
         "engines": [
